@@ -473,7 +473,7 @@ func TestC20(t *testing.T) {
 		V.Extra("exhaustive_subspace", fmt.Sprintf("%d scenarios: {failover: 5 cached-connection states x 5 reconnectable-path states, tcpbackend: 5 cached-connection states x 3 destinations} x 1-3 sends", n))
 	})
 
-	rcheck(t, "random", V.N(200, 6000), func(rt *rapid.T) {
+	rcheck(t, "random", V.N(1500, 6000), func(rt *rapid.T) {
 		sc := c20Scenario{Subject: rapid.SampledFrom([]string{"failover", "failover", "tcpbackend"}).Draw(rt, "subject")}
 		sc.Primary = rapid.SampledFrom([]string{"absent", "healthy", "healthy", "fail@0", "fail@1", "fail@len-1"}).Draw(rt, "primary")
 		if sc.Subject == "failover" {
